@@ -19,6 +19,7 @@ import (
 	"github.com/CrowdStrike/csproto"
 	"google.golang.org/protobuf/proto"
 	"google.golang.org/protobuf/reflect/protoreflect"
+	"google.golang.org/protobuf/reflect/protoregistry"
 	"google.golang.org/protobuf/types/dynamicpb"
 
 	"verif/mc/corpus"
@@ -680,13 +681,11 @@ func (w *W) checkC07(t *gcore.Type, id string, c *dynamicpb.Message) {
 
 // checkC10: after a default-mode Unmarshal the message must not depend on the caller's buffer.
 func (w *W) checkC10(t *gcore.Type, id string, c *dynamicpb.Message) {
-	vs := variants(t.RefDesc(), c, 0)
-	pick := []variant{vs[0]}
-	for _, v := range vs {
-		if v.name == "unknown-all-kinds-interleaved" {
-			pick = append(pick, v)
-		}
-	}
+	// every legal encoding of the tree (order, packing, repeated / split occurrences, map-entry shapes incl. an unknown field
+	// INSIDE an entry, unknown fields at every position, the same one level down): a decoding path taken only for a rare
+	// shape may treat the buffer differently - for the field it handles or for everything decoded after it
+	vs := variants(t.RefDesc(), c, 1)
+	pick := append([]variant{}, vs...)
 	// a declared extension number arriving with the WRONG wire type is kept as an unknown field by its own code
 	// path; as the first (only) unknown field of the message it must be a private copy like any other
 	if id == "empty" || strings.HasPrefix(id, "ext:") {
@@ -1106,6 +1105,44 @@ func requiredCases(t *gcore.Type) []gcore.Case {
 			}
 		}
 	}
+	// several elements / entries of which only SOME are deficient, in every order: an error found at one element must not be
+	// forgotten because a later element is fine
+	for i := 0; i < md.Fields().Len(); i++ {
+		f := md.Fields().Get(i)
+		if !(f.IsList() && f.Message() != nil && hasRequired(f.Message())) && !(f.IsMap() && f.MapValue().Message() != nil && hasRequired(f.MapValue().Message()) && f.MapKey().Kind() == protoreflect.StringKind) {
+			continue
+		}
+		sub := f.Message()
+		if f.IsMap() {
+			sub = f.MapValue().Message()
+		}
+		mk := func(good bool) protoreflect.Value {
+			v := dynamicpb.NewMessage(sub)
+			if good {
+				gcore.FillRequired(v)
+			} else {
+				for j := 0; j < sub.Fields().Len(); j++ {
+					if sf := sub.Fields().Get(j); sf.Cardinality() == protoreflect.Optional && sf.Message() == nil {
+						gcore.SetSimple(v, sf)
+						break
+					}
+				}
+			}
+			return protoreflect.ValueOfMessage(v)
+		}
+		for _, pattern := range []string{"bg", "gb", "gbg", "bgg", "bbg", "gg"} {
+			mm := dynamicpb.NewMessage(md)
+			gcore.Copy(mm, full())
+			for k, ch := range pattern {
+				if f.IsMap() {
+					mm.Mutable(f).Map().Set(protoreflect.ValueOfString(fmt.Sprintf("k%d", k)).MapKey(), mk(ch == 'g'))
+				} else {
+					mm.Mutable(f).List().Append(mk(ch == 'g'))
+				}
+			}
+			out = append(out, gcore.Case{ID: fmt.Sprintf("nested:%s/elements=%s(g=complete,b=deficient)", f.Name(), pattern), Msg: mm})
+		}
+	}
 	// the extension position: a message-typed extension whose type has required fields
 	for _, xt := range t.Exts() {
 		xd := xt.TypeDescriptor()
@@ -1295,6 +1332,14 @@ func worker(sh *ev.Shard, prop string) {
 	}
 	w := &W{sh: sh, prop: prop}
 	types := gcore.Types()
+	// Every second worker process (and every replay) first makes the legitimate, FAILING extension calls a generic helper
+	// makes when it probes arbitrary messages: each extension of the corpus is asked of a message of ANOTHER type of the same
+	// runtime (HasExtension / GetExtension: false / error, message untouched). Whatever csproto remembers from such a call
+	// must not change what the generated Size / Marshal / Unmarshal of the right message type do afterwards; the other
+	// workers cover "first use is the correct one".
+	if (sh.Index%2 == 1 || replayType != "") && prop != "C08" {
+		sh.Count("foreign_extension_probes_before_the_cases", foreignProbes(types))
+	}
 	task := 0
 	for _, t := range types {
 		if !wantRuntime(t.RT, sh.Thorough()) {
@@ -1376,6 +1421,56 @@ func worker(sh *ev.Shard, prop string) {
 	sh.Count("nontrivial", w.nontr)
 	pprof.StopCPUProfile()
 	sh.Done()
+}
+
+// foreignProbes: see worker. Returns the number of (extension, foreign message) pairs probed.
+func foreignProbes(types []*gcore.Type) int64 {
+	var n int64
+	for _, t := range types {
+		xts := t.Exts()
+		if len(xts) == 0 {
+			continue
+		}
+		// a message of another type of the same runtime
+		var other *gcore.Type
+		for _, o := range types {
+			if o.RT == t.RT && o.Full != t.Full {
+				other = o
+				break
+			}
+		}
+		if other == nil {
+			continue
+		}
+		var descs []any
+		switch t.RT {
+		case corpus.Gogo:
+			if gm, ok := t.New().(gogoproto.Message); ok {
+				for _, d := range gogoproto.RegisteredExtensions(gm) {
+					descs = append(descs, d)
+				}
+			}
+		case corpus.Legacy:
+			if lm, ok := t.New().(golangproto.Message); ok {
+				for _, d := range golangproto.RegisteredExtensions(lm) { //nolint:staticcheck
+					descs = append(descs, d)
+				}
+			}
+		default:
+			for _, xt := range xts {
+				if gx, err := protoregistry.GlobalTypes.FindExtensionByName(xt.TypeDescriptor().FullName()); err == nil {
+					descs = append(descs, gx)
+				}
+			}
+		}
+		for _, d := range descs {
+			o := other.New()
+			_ = guard(func() { _ = csproto.HasExtension(o, d) })
+			_ = guard(func() { _, _ = csproto.GetExtension(o, d) })
+			n++
+		}
+	}
+	return n
 }
 
 func wantRuntime(rt corpus.Runtime, thorough bool) bool {
